@@ -118,6 +118,40 @@ def run(F, chk):
             rdx.violation(key, mb.where(looks[0][0]), "%s consults %s: certificate names are trie keys (possibly wildcard patterns), not hostnames; a `*.suffix` key is never found by a hostname lookup, so its entry is not evicted / updated" % (m, looks[0][1].split("::")[-1]))
         else:
             rdx.ok(key, mb.where(), "trie entries are addressed by key only")
+    # ---------------- R-C17-e -------------------------------------------------
+    # The per-name candidate list is kept sorted by expiration and the trie is pointed at one END of it - by
+    # add_certificate when a certificate arrives and by remove_certificate when the served one goes away.  The two are
+    # siblings: they must take the same end (`last` after an ascending sort, or `first` after a descending one), else the
+    # name falls back to the shortest-lived certificate on removal.
+    rex = chk.rule("R-C17-e", "T8", "add_certificate and remove_certificate pick the same end of the per-name list", floor=1)
+    ends = {}
+    for m in ("add_certificate", "remove_certificate"):
+        if not F.has(CR + "::" + m):
+            continue
+        mb = lib.flat(F, F.body(CR + "::" + m))
+        rex.fn(mb.path)
+        picked = set()
+        for bi, t in mb.calls():
+            c = callee_of(t)
+            nm = c.rsplit("::", 1)[-1]
+            if nm in ("last", "first", "last_mut", "first_mut", "pop", "max_by_key", "min_by_key") and t["args"]:
+                sl = guards.slice_of_operand(mb, t["args"][0])
+                if any(f == "name_fingerprint_idx" for _, f in sl["fields"]) or any(x.endswith(("Entry", "::entry", "::get_mut", "::or_default", "OccupiedEntry::<'a, K, V, A>::get")) or "entry" in x.lower() for x in sl["callees"]):
+                    picked.add({"last_mut": "last", "first_mut": "first", "pop": "last"}.get(nm, nm))
+        desc = False
+        for cp in F.family(CR + "::" + m)[1:]:
+            cb = F.body(cp)
+            if any(st.get("rv", {}).get("k") == "agg" and str(st["rv"].get("adt", "")).endswith("cmp::Reverse") for _, _, st in cb.stmts()):
+                desc = True
+        ends[m] = (frozenset(picked), desc)
+    key = "selection end agreement"
+    if rex.require(len(ends) == 2 and all(e[0] for e in ends.values()), "could not find how add_certificate / remove_certificate pick the served certificate of a name: %s" % ends):
+        (pa, da), (pr, dr) = ends["add_certificate"], ends["remove_certificate"]
+        want_a = "first" if da else "last"
+        if pa == pr and (want_a in pa or len(pa) != 1):
+            rex.ok(key, F.body(CR + "::add_certificate").where(), "both take `%s` (sort %s)" % ("/".join(sorted(pa)), "descending" if da else "ascending"))
+        else:
+            rex.violation(key, F.body(CR + "::remove_certificate").where(), "add_certificate serves the `%s` element of the per-name list (sorted %s) but remove_certificate re-points the name at the `%s` element: after a removal the name is served by the shortest-lived remaining certificate while a longer-lived one is loaded" % ("/".join(sorted(pa)), "descending" if da else "ascending", "/".join(sorted(pr))))
     # ---------------- R-C17-c -------------------------------------------------
     rc = chk.rule("R-C17-c", "T3", "strict SNI binding: routing only past the authority-matches-certificate edge", floor=2)
     rr = [p for p in F.paths() if p.startswith(ROUTER + "::route_from_request") and "{closure" not in p]
